@@ -111,6 +111,25 @@ def compile_expr(e: ast.expr):
     return compile(ast.Expression(body=e2), "<contract>", "eval")
 
 
+def _memo(fn):
+    cache: dict = {}
+
+    def wrapped(*args):
+        try:
+            key = args
+            hash(key)
+        except TypeError:
+            return fn(*args)
+        if key not in cache:
+            if len(cache) > 200000:
+                cache.clear()
+            cache[key] = fn(*args)
+        return cache[key]
+
+    wrapped.__name__ = getattr(fn, "__name__", "spec")
+    return wrapped
+
+
 def base_env(registry: Registry) -> dict:
     env = {
         "forall": _forall, "exists": _exists, "implies": _implies, "keys": lambda d: list(d.keys()),
@@ -135,6 +154,7 @@ def base_env(registry: Registry) -> dict:
         fn = _LazyImplies().visit(fn)
         mod = ast.fix_missing_locations(ast.Module(body=[fn], type_ignores=[]))
         exec(compile(mod, f"<spec {name}>", "exec"), env)  # noqa: S102
+        env[name] = _memo(env[name])  # recursive specs (Lev) are exponential without it
     import sys
 
     sys.setrecursionlimit(max(sys.getrecursionlimit(), 20000))
